@@ -759,6 +759,9 @@ pub fn verif_default_operators(
 /// Verification hook: the diversification operators of the default heuristic (redistribute, sequence local
 /// search, infeasible search with repair) as one weighted operator, exactly as the heuristic uses them.
 #[cfg(reinterpretcat_vrp_verif)]
-pub fn verif_default_diversify_operators(problem: Arc<Problem>, environment: Arc<Environment>) -> Vec<TargetSearchOperator> {
+pub fn verif_default_diversify_operators(
+    problem: Arc<Problem>,
+    environment: Arc<Environment>,
+) -> HeuristicDiversifyOperators<RefinementContext, GoalContext, InsertionContext> {
     create_diversify_operators(problem, environment)
 }
